@@ -263,3 +263,14 @@ def t_start_end(world):
 _t10 = tasks
 def tasks(tier):
     return _t10(tier) + [('wiring', t_wiring), ('start_end', t_start_end)]
+
+
+# ---------------------------------------------------------------- shared with C11.f: the flag helpers behind the receivership bracket
+def t_flag_helpers(world):
+    import specs.C11 as C11
+    return C11.t_flag_helpers(world, 'C10.g')
+
+
+_t10z = tasks
+def tasks(tier):
+    return _t10z(tier) + [('flag_helpers', t_flag_helpers)]
